@@ -12,6 +12,21 @@ CLAIMED = {
             "reference semantics in ref/fa.py (cross-validated by harness/selftest.py); sizes <= 6 states, <= 3 symbols, sampled hash seeds"),
 }
 
+CLAIMED.update({
+    "C03": ("nfa_to_dfa result vs. independent subset construction, exact equivalence by product walk; validity, initial label, reachability predicates",
+            "generated and exhaustively enumerated NFAs; the returned DFA is checked for validity, exact language equality, initial-state meaning and reachability",
+            "ref/fa.py; sizes <= 6 states, <= 3 symbols; sampled hash seeds"),
+    "C04": ("three minimisers vs. own Moore refinement: exact equivalence, pairwise distinguishability, state-count bounds, argument snapshot",
+            "generated (inflated) and exhaustively enumerated DFAs; each minimiser's result is validated against reference Myhill-Nerode classes",
+            "ref/fa.py; sizes <= 8 states, <= 3 symbols; set-iteration orders sampled through hash seeds and state renaming/permutation"),
+    "C14": ("constructions vs. reference automata built from word-level definitions, exact equivalence; finite-language helpers vs. set comprehensions",
+            "generated DFAs / pairs / partial DFAs / finite languages; exact equivalence for regular constructions, set equality for helpers",
+            "ref/fa.py, ref/lang.py; sizes <= 5 states, <= 2-3 symbols"),
+    "C20": ("both isomorphism tests vs. forced-BFS-matching oracle in both argument orders; termination by deterministic line-event budget",
+            "generated pairs in five classes (renamed, unreachable states, split state, mutated, independent) and all ordered pairs of <=2-state DFAs",
+            "ref/fa.py; termination judged by a 400000 line-event budget; sizes <= 7 states"),
+})
+
 NOT_YET = {
 }
 
